@@ -52,12 +52,12 @@ def task_ics(uid, occ, maxsim=0, owner=None, dur=None, method='PUBLISH', extra=(
     return L
 
 
-def request(items, method='PUBLISH'):
-    """items: list of dicts kind=add|cancel ..."""
-    L = ['BEGIN:VCALENDAR', 'VERSION:2.0', 'METHOD:' + method]
+def request(items, method='PUBLISH', cal_maxsim=0):
+    """items: list of dicts kind=add|cancel ...; cal_maxsim: a limit stated for the whole calendar (an event's own statement goes first)"""
+    L = ['BEGIN:VCALENDAR', 'VERSION:2.0', 'METHOD:' + method] + (['X-ECHS-MAX-SIMUL:%d' % cal_maxsim] if cal_maxsim else [])
     for it in items:
         if it['kind'] == 'add':
-            L += task_ics(it['uid'], it['occ'], it.get('maxsim', 0), it.get('owner_uid', it.get('owner_name')), it.get('dur'), extra=it.get('extra', ()), allday=it.get('allday', False), past_rule=it.get('past_rule', False))
+            L += task_ics(it['uid'], it['occ'], it.get('text_maxsim', it.get('maxsim', 0)), it.get('owner_uid', it.get('owner_name')), it.get('dur'), extra=it.get('extra', ()), allday=it.get('allday', False), past_rule=it.get('past_rule', False))
         elif it['uid'] == '':
             L += ['BEGIN:VEVENT', 'DTSTART:' + secs(0), 'END:VEVENT']          # a cancel that names no UID at all
         else:
@@ -192,7 +192,7 @@ def areq(rnd, peer, text):
     return 'AC\t%d\t%s\t%s' % (peer, ','.join(map(str, sizes)), rrgen.esc(text))
 
 
-def random_script(rnd, ntasks=3, peers=(1000,), horizon=14, maxsims=(0, 0, 1, 2), steps=40, cancel=True, big=False, jumps=False):
+def random_script(rnd, ntasks=3, peers=(1000,), horizon=14, maxsims=(0, 0, 1, 2), steps=40, cancel=True, big=False, jumps=False, calmax=False):
     uids = ['t%d' % (i + 1) for i in range(ntasks)]
     cmds, metas = [], {}
     def add(uid):
@@ -202,8 +202,12 @@ def random_script(rnd, ntasks=3, peers=(1000,), horizon=14, maxsims=(0, 0, 1, 2)
         if rnd.random() < 0.7: occ = sorted(set(occ))
         it = {'kind': 'add', 'uid': uid, 'occ': occ, 'maxsim': rnd.choice(maxsims), 'peer': rnd.choice(peers)}
         if len(occ) == 1 and rnd.random() < 0.35: it['past_rule'] = rnd.choice([True, True, 'M'])     # written as a rule that has been going since 1997 and ends with this occurrence
+        cal = 0
+        if calmax and rnd.random() < 0.3:
+            # the request states a limit for the whole calendar; the event states its own (which then counts), or none
+            cal = rnd.choice([1, 2, 3]); it['text_maxsim'] = it['maxsim']; it['maxsim'] = it['maxsim'] or cal
         metas[len(cmds)] = [it]
-        cmds.append(areq(rnd, it['peer'], request([it])))
+        cmds.append(areq(rnd, it['peer'], request([it], cal_maxsim=cal)))
     for u in uids:
         if rnd.random() < 0.8: add(u)
     for _ in range(steps):
